@@ -21,6 +21,7 @@ type Program struct {
 	files     []*SpecFile
 	contracts map[*ssa.Function]*FuncContract
 	byKey     map[string]*ssa.Function // "pkgname.Key"
+	insts     map[*ssa.Function][]*ssa.Function // generic origin -> instantiations with bodies
 	ifaces    map[string]*FuncContract // "Iface.Method"
 	typeIDs   map[string]int
 	sizes     types.Sizes
@@ -140,7 +141,9 @@ func Load(ls LoadSpec) (*Program, error) {
 	if len(errs) > 0 {
 		return nil, fmt.Errorf("package errors: %s", strings.Join(errs, "; "))
 	}
-	prog, spkgs := ssautil.AllPackages(pkgs, ssa.GlobalDebug)
+	// InstantiateGenerics: every instantiation of a generic function gets its own monomorphised body
+	// (concrete types), which is what the encoder verifies; the contract stays on the generic origin.
+	prog, spkgs := ssautil.AllPackages(pkgs, ssa.GlobalDebug|ssa.InstantiateGenerics)
 	// only build the requested packages' function bodies (and dependencies lazily)
 	for _, sp := range spkgs {
 		if sp != nil {
@@ -200,7 +203,12 @@ func Load(ls LoadSpec) (*Program, error) {
 	}
 	p.computeConstGlobals(all, mine)
 	p.specs.constGlobals = p.constGlobals
+	p.insts = map[*ssa.Function][]*ssa.Function{}
 	for fn := range all {
+		if o := fn.Origin(); o != nil && o != fn && len(fn.Blocks) > 0 {
+			p.insts[o] = append(p.insts[o], fn) // bodies are verified per instantiation (concrete types)
+			continue
+		}
 		if fn.Pkg == nil || !mine[fn.Pkg] || fn.Synthetic != "" && !strings.HasPrefix(fn.Synthetic, "package init") {
 			continue
 		}
